@@ -3,12 +3,18 @@
   invalid ones.
 
   Model: Sem/Errors.lean (message shapes, the three regexes of errors.py as matchers, the control
-  flow of `standard_readable_error_for_typedpy_exception`, `Structure.__init__` for flat classes).
+  flow of `standard_readable_error_for_typedpy_exception`, `Structure.__init__` and
+  deserialization for classes of any declarations: the path through nested collections and nested /
+  inline structures, `locate` / `dHead` over `validate` / `deser`).
   "Which fields are invalid" is `invalidFields`, defined from `validate` (Sem/Validate.lean, the
   C01/C02 model) and from nothing in the message code.
 
-  State of the code this file mirrors (/repo 4d96101, 041aebb, 9c7ef9a): the message regexes are
-  DOTALL with field group `[\w.]+`, and no check of a flat field raises a foreign exception.
+  State of the code this file mirrors (/repo 18c6055; 4d96101, 041aebb, 9c7ef9a, 23519e1, 8de2ad2,
+  3e97bbb): the message regexes are DOTALL with field group `(?:[\w.]|[^\x00-\x7f\s])+`, no check
+  raises a foreign exception, nested and inline structures name the field that holds them.
+  Further down: the parse INVERTS the formatter (`render_parse_inverts`), the suffix chain leads to a
+  rejected position (`locate_sound`), every deserialization rejection begins with its own field's
+  name at any depth (`p1SiteD_names_own_field`), derived class names (`derived_name_identOk`).
   Consequences, all proved below for every class, argument set, text and codec:
     * a message `<field>: <rest>` keeps its field for EVERY rest (newlines, `;`, anything) — the
       exact condition is only that the field text is in `[\w.]+` (`render_parse_exact`, an iff);
